@@ -115,6 +115,25 @@ func (c *Check) stateEntryApproval(rule string) {
 				if cst, ok := v.Call.Args[1].(*ssa.Const); ok && cst.Value != nil && cst.Int64() == disabled {
 					kind = "disable"
 				}
+			} else if cal := v.Call.StaticCallee(); cal != nil && p.IsLocal(cal) && len(cal.Blocks) > 0 {
+				// a helper that builds the disable: every return's target is
+				// disabledState whatever the arguments
+				ca := NewAnalysis(p, cal)
+				ca.Run()
+				all := len(ca.Returns) > 0 && len(ca.Undecided) == 0
+				for _, r := range ca.Returns {
+					if len(r.Results) != 1 {
+						all = false
+						continue
+					}
+					to := mkField(r.Results[0], "to", 0, p.Field("stateTransition", "to").Type())
+					if cv, isC := r.State.rangeOf(to).IsConst(); !isC || cv != disabled {
+						all = false
+					}
+				}
+				if all {
+					kind = "disable"
+				}
 			}
 		}
 		// stores after dispatch (the next request) are not dominated by... they
